@@ -767,6 +767,12 @@ func (e *Engine) intrinsic(fr *frame, name string, args []Value) (Value, bool) {
 		}
 		return nil, true
 	case "verifOption":
+		if e.strArg(args[0]) == "hash-uf" {
+			// every xxhash of this run, also of concrete keys, is an uninterpreted function value: the solver may
+			// let distinct keys collide
+			e.hashAlwaysUF = true
+			return nil, true
+		}
 		if e.ev != nil {
 			e.ev.options[e.strArg(args[0])] = true
 		}
